@@ -158,6 +158,13 @@ def run(tier, replay=None):
         errs = [rnd.choice(texts[("streamable", o)]) for o in s["outcomes"]]
         direct.append({"id": sid, "retry": cfg, "errors": errs, "cancel": {"at": "", "k": 0}})
         meta[sid] = (s, "streamable", cfg, errs)
+    # the cap bites where MaxBackoff / InitialBackoff is not an integer: 400, 600, 790 ms (the upper bound of a wait is cap + 250 ms)
+    for n, s in enumerate([x for x in capc if len(x["outcomes"]) >= 2][:4 if tier == "quick" else 12]):
+        sid = "capfrac%d" % n
+        cfg = {"max": int(s["cfg"]), "initial_ms": 400.0, "factor": 1.5, "max_ms": 790.0}
+        errs = [rnd.choice(texts[("streamable", o)]) for o in s["outcomes"]]
+        direct.append({"id": sid, "retry": cfg, "errors": errs, "cancel": {"at": "", "k": 0}})
+        meta[sid] = (s, "streamable", cfg, errs)
     nproc = 12
     chunks = [direct[i::nproc] for i in range(nproc)]
 
@@ -331,6 +338,17 @@ def run(tier, replay=None):
             run_.diverge("clamp not-idempotent", "Validate(Validate(c)) differs from Validate(c) for %s" % cin, rp)
         if not got["via_option_equal"]:
             run_.diverge("clamp option", "WithRetry installs a configuration different from Validate() for %s" % cin, rp)
+        # the other entry points: WithRetry on the legacy client, WithSimpleRetry(n) on both clients
+        if not got.get("via_option_equal_legacy", True):
+            run_.diverge("clamp option client=legacy", "WithRetry on the legacy client installs a configuration different from Validate() for %s" % cin, rp)
+        if exp is not None:
+            for k, name in enumerate(("streamable", "legacy")):
+                sr = (got.get("simple_retries") or [exp["retries"], exp["retries"]])[k]
+                if sr != exp["retries"]:
+                    run_.diverge("clamp option=WithSimpleRetry field=retries", "WithSimpleRetry(%d) on the %s client installs %d retries, the documented range gives %d"
+                                 % (cin["retries"], name, sr, exp["retries"]), rp)
+        if not got.get("simple_valid", True):
+            run_.diverge("clamp option=WithSimpleRetry not-in-range", "WithSimpleRetry(%d) installs a configuration that Validate() would change" % cin["retries"], rp)
     run_.exhaustive = tier == "thorough"
     run_.extra["direct_scripts"] = len(direct)
     run_.extra["e2e_scripts"] = len(e2e)
